@@ -114,6 +114,18 @@ rq_canon_rects (const RQ_BOX_T *r, int n, const RQ_BOX_T *ext, int coalesced)
 #define RQ_BOX_COVERS(b, q) \
     (RQ_IN_BOX (b, (q).x1, (q).y1) && RQ_IN_BOX (b, (rq_i64) (q).x2 - 1, (rq_i64) (q).y2 - 1))
 
+/* number of integer points in a n b (both half-open boxes); < 2^64 for 32-bit coordinates */
+typedef unsigned long long rq_u64;
+static inline rq_u64
+rq_area_meet (const RQ_BOX_T *a, const RQ_BOX_T *b)
+{
+    rq_i64 w = RQ_MIN ((rq_i64) a->x2, (rq_i64) b->x2) - RQ_MAX ((rq_i64) a->x1, (rq_i64) b->x1);
+    rq_i64 h = RQ_MIN ((rq_i64) a->y2, (rq_i64) b->y2) - RQ_MAX ((rq_i64) a->y1, (rq_i64) b->y1);
+    if (w <= 0 || h <= 0)
+        return 0;
+    return (rq_u64) w * (rq_u64) h;
+}
+
 /* ---- a1 bitmap: bit (bx,by) of a little-/big-endian a1 image (pixel x of a row
  * lives in 32-bit word x/32; on little-endian hosts bit x%32 counted from the
  * least significant bit, on big-endian hosts from the most significant) */
